@@ -17,12 +17,16 @@ import (
 	"path/filepath"
 	"regexp"
 	"runtime"
+	"strings"
 	"sync"
 	"time"
 
+	cpb "github.com/openconfig/gnmi/proto/collector"
 	pb "github.com/openconfig/gnmi/proto/gnmi"
 	"google.golang.org/grpc"
+	"google.golang.org/grpc/codes"
 	"google.golang.org/grpc/credentials"
+	"google.golang.org/grpc/status"
 )
 
 // env holds what is built once per test process: the two binaries and a certificate.
@@ -107,14 +111,123 @@ func getEnv(workDir string) (*env, error) {
 
 // ---- scripted gNMI target server -------------------------------------------------------------
 
+// hub is where the scripted targets and the observers of one case see each other's progress.
+// Every wait on it is bounded; a bound that passes never decides a verdict.
+type hub struct {
+	mu       sync.Mutex
+	ch       chan struct{} // closed (and replaced) on every change
+	plays    map[string]*play
+	obs      []*obsState
+	progress time.Time // last time a script moved
+	timedOut int       // bounded waits that ended by their bound
+	abort    string    // infrastructure trouble that leaves the case without a verdict
+	stop     bool      // the case is over: nobody waits any more
+}
+
+func newHub() *hub { return &hub{ch: make(chan struct{}), plays: map[string]*play{}, progress: time.Now()} }
+
+// change runs f under the lock and wakes every waiter.
+func (h *hub) change(f func()) {
+	h.mu.Lock()
+	f()
+	close(h.ch)
+	h.ch = make(chan struct{})
+	h.mu.Unlock()
+}
+
+// wait blocks until pred (evaluated under the lock) holds or max passed; it reports whether pred held.
+func (h *hub) wait(pred func() bool, max time.Duration) bool {
+	timer := time.NewTimer(max)
+	defer timer.Stop()
+	for {
+		h.mu.Lock()
+		if pred() {
+			h.mu.Unlock()
+			return true
+		}
+		c := h.ch
+		h.mu.Unlock()
+		select {
+		case <-c:
+		case <-timer.C:
+			h.mu.Lock()
+			ok := pred()
+			if !ok {
+				h.timedOut++
+			}
+			h.mu.Unlock()
+			return ok
+		}
+	}
+}
+
+// play is one target's script being played. Fields are guarded by hub.mu except where noted.
+type play struct {
+	serial  sync.Mutex // one Subscribe handler per target plays at a time
+	name    string
+	ops     []Op
+	id      string // value of the sentinel
+	pos     int    // ops started
+	conns   int    // Subscribe calls seen
+	done    bool   // script and sentinel sent completely
+	active  bool   // a stream from the collector is being served
+	flushed time.Time
+	// only touched by the handler holding serial
+	m  *model
+	ts int64
+}
+
+const (
+	maxAwait = 3 * time.Second // a script waits at most this long for an observer
+	maxPause = 3 * time.Second // an observer's handler blocks at most this long for a script
+)
+
+type trackListener struct {
+	net.Listener
+	mu    sync.Mutex
+	conns []net.Conn
+}
+
+func (l *trackListener) Accept() (net.Conn, error) {
+	c, err := l.Listener.Accept()
+	if err == nil {
+		l.mu.Lock()
+		l.conns = append(l.conns, c)
+		l.mu.Unlock()
+	}
+	return c, err
+}
+
+func (l *trackListener) closeAll() {
+	l.mu.Lock()
+	cs := l.conns
+	l.conns = nil
+	l.mu.Unlock()
+	for _, c := range cs {
+		c.Close()
+	}
+}
+
 type scriptedServer struct {
 	pb.UnimplementedGNMIServer
 	mu       sync.Mutex
-	scripts  map[string][]*pb.SubscribeResponse // by target name
-	requests map[string][]*pb.SubscribeRequest  // what arrived, by target name in the prefix
-	flushed  map[string]time.Time               // when the whole script of a target had been sent
+	requests map[string][]*pb.SubscribeRequest // what arrived, by target name in the prefix
+	h        *hub
+	colAddr  func() string // the collector's address (for the "rpc" break), known once it runs
+	e        *env
+	lis      *trackListener
 	srv      *grpc.Server
 	addr     string
+}
+
+func (s *scriptedServer) addScript(tg Target, id string) {
+	p := &play{name: tg.Name, ops: tg.Ops, id: id, m: newModel(), ts: time.Now().UnixNano()}
+	s.h.change(func() { s.h.plays[tg.Name] = p })
+}
+
+func sentinelResp(id string, ts *int64) *pb.SubscribeResponse {
+	return resp(&pb.Notification{Timestamp: next(ts), Prefix: &pb.Path{},
+		Update: []*pb.Update{{Path: &pb.Path{Elem: []*pb.PathElem{{Name: sentinelName}}}, Val: &pb.TypedValue{Value: &pb.TypedValue_StringVal{StringVal: id}}}}})
 }
 
 func (s *scriptedServer) Subscribe(stream pb.GNMI_SubscribeServer) error {
@@ -125,29 +238,119 @@ func (s *scriptedServer) Subscribe(stream pb.GNMI_SubscribeServer) error {
 	name := req.GetSubscribe().GetPrefix().GetTarget()
 	s.mu.Lock()
 	s.requests[name] = append(s.requests[name], req)
-	script := s.scripts[name]
 	s.mu.Unlock()
-	for _, r := range script {
-		if err := stream.Send(r); err != nil {
+	h := s.h
+	h.mu.Lock()
+	p := h.plays[name]
+	h.mu.Unlock()
+	if p == nil {
+		<-stream.Context().Done()
+		return nil
+	}
+	p.serial.Lock()
+	defer p.serial.Unlock()
+	var again bool
+	h.change(func() { p.conns++; again = p.conns > 1; p.active = true; h.progress = time.Now() })
+	defer h.change(func() { p.active = false })
+	send := func(rs []*pb.SubscribeResponse) error {
+		for _, r := range rs {
+			if err := stream.Send(r); err != nil {
+				return err
+			}
+		}
+		return nil
+	}
+	if again {
+		// a device that is subscribed to again reports its current state, then marks it complete
+		if err := send(append(p.m.report(&p.ts), syncResp())); err != nil {
 			return err
 		}
 	}
-	s.mu.Lock()
-	s.flushed[name] = time.Now()
-	s.mu.Unlock()
+	for {
+		var o Op
+		var end bool
+		h.change(func() {
+			if end = p.pos >= len(p.ops); !end {
+				o = p.ops[p.pos]
+				p.pos++
+				h.progress = time.Now()
+			}
+		})
+		if end {
+			break
+		}
+		switch o.Kind {
+		case "await":
+			h.wait(func() bool { return h.stop || (o.Obs < len(h.obs) && h.obs[o.Obs].reached(o.Event, o.N)) }, maxAwait)
+		case "wait":
+			time.Sleep(time.Duration(o.N) * time.Millisecond)
+		case "break":
+			p.m.apply(o, nil)
+			switch o.Via {
+			case "rpc":
+				// the collector is asked to drop and re-establish this target's stream; whether and
+				// when it does is its business: nothing is lost, so the final state is the same
+				rc := make(chan error, 1)
+				go func() { rc <- reconnectRPC(s.colAddr(), name) }()
+				select {
+				case <-stream.Context().Done():
+				case err := <-rc:
+					// accepted: the manager has cancelled this stream's context, the cancellation is on its way.
+					// Anything else leaves it open whether a reconnect is still to come: no verdict for this case.
+					if err == nil {
+						select {
+						case <-stream.Context().Done():
+						case <-time.After(20 * time.Second):
+							err = fmt.Errorf("stream still open 20s later")
+						}
+					}
+					if err != nil {
+						h.change(func() { h.abort = fmt.Sprintf("Reconnect RPC for %s: %v", name, err) })
+					}
+				}
+				return status.Error(codes.Canceled, "stream cancelled")
+			case "conn":
+				s.lis.closeAll()
+				return status.Error(codes.Unavailable, "scripted transport failure")
+			default:
+				return status.Error(codes.Unavailable, "scripted stream failure")
+			}
+		default:
+			p.m.apply(o, nil)
+			if err := send(wire(o, &p.ts)); err != nil {
+				return err
+			}
+		}
+	}
+	if err := send([]*pb.SubscribeResponse{sentinelResp(p.id, &p.ts)}); err != nil {
+		return err
+	}
+	h.change(func() { p.done = true; p.flushed = time.Now(); h.progress = p.flushed })
 	<-stream.Context().Done()
 	return nil
 }
 
-func startScripted(e *env) (*scriptedServer, error) {
+func reconnectRPC(addr, target string) error {
+	ctx, cancel := context.WithTimeout(context.Background(), 15*time.Second)
+	defer cancel()
+	conn, err := grpc.DialContext(ctx, addr, grpc.WithBlock(), grpc.WithTransportCredentials(credentials.NewTLS(&tls.Config{InsecureSkipVerify: true})))
+	if err != nil {
+		return err
+	}
+	defer conn.Close()
+	_, err = cpb.NewCollectorClient(conn).Reconnect(ctx, &cpb.ReconnectRequest{Target: []string{target}})
+	return err
+}
+
+func startScripted(e *env, h *hub, colAddr func() string) (*scriptedServer, error) {
 	lis, err := net.Listen("tcp", "127.0.0.1:0")
 	if err != nil {
 		return nil, err
 	}
-	s := &scriptedServer{scripts: map[string][]*pb.SubscribeResponse{}, requests: map[string][]*pb.SubscribeRequest{}, flushed: map[string]time.Time{}, addr: lis.Addr().String()}
+	s := &scriptedServer{requests: map[string][]*pb.SubscribeRequest{}, h: h, colAddr: colAddr, e: e, lis: &trackListener{Listener: lis}, addr: lis.Addr().String()}
 	s.srv = grpc.NewServer(grpc.Creds(credentials.NewTLS(&tls.Config{Certificates: []tls.Certificate{e.tlsCert}})))
 	pb.RegisterGNMIServer(s.srv, s)
-	go s.srv.Serve(lis)
+	go s.srv.Serve(s.lis)
 	return s, nil
 }
 
@@ -189,24 +392,33 @@ func startCollector(e *env, dir, configFile string) (*collectorProc, error) {
 		}
 		p := &collectorProc{cmd: cmd, addr: fmt.Sprintf("127.0.0.1:%d", port), log: logf, done: make(chan struct{})}
 		go func() { cmd.Wait(); f.Close(); close(p.done) }()
-		// wait until it listens
+		// wait until it listens (a process that died - port taken meanwhile? - is started again on another port;
+		// a successful dial proves nothing if it died: somebody else may own the port now)
 		deadline := time.Now().Add(15 * time.Second)
-		for time.Now().Before(deadline) {
-			select {
-			case <-p.done:
-				deadline = time.Now() // died (port taken?): try again
-			default:
-			}
+		for time.Now().Before(deadline) && p.alive() {
 			c, err := net.DialTimeout("tcp", p.addr, 200*time.Millisecond)
 			if err == nil {
 				c.Close()
-				return p, nil
+				if p.alive() {
+					return p, nil
+				}
+				break
 			}
 			time.Sleep(20 * time.Millisecond)
 		}
 		p.stop()
 	}
 	return nil, fmt.Errorf("the collector did not start listening")
+}
+
+// died is the verdict on a collector process that is gone: a violation, unless its log says it
+// lost the race for its port (the harness picks a free port, closes it and hands the number over).
+func (p *collectorProc) died() error {
+	lg, _ := os.ReadFile(p.log)
+	if strings.Contains(string(lg), "address already in use") {
+		return &inconclusive{msg: "the collector could not bind its port: " + tailOf(string(lg), 300)}
+	}
+	return &violation{"collector-died", fmt.Sprintf("the collector process died: %s", tailOf(string(lg), 1500))}
 }
 
 func (p *collectorProc) alive() bool {
